@@ -477,46 +477,69 @@ impl Server {
     
     /// Wake up a specific blocked client with data
     fn wake_client(&self, wakeup: WakeupRequest) -> Result<()> {
-        // Perform atomic pop based on the operation type
-        let value = match wakeup.op_type {
-            super::connection::BlockingOp::BLPop => self.storage.lpop(wakeup.db, &wakeup.key)?,
-            super::connection::BlockingOp::BRPop => self.storage.rpop(wakeup.db, &wakeup.key)?,
-            super::connection::BlockingOp::XReadBlock(_) => {
-                // XReadBlock not implemented yet, skip for now
-                return Ok(());
-            }
-        };
+        if let super::connection::BlockingOp::XReadBlock(_) = wakeup.op_type {
+            // XReadBlock not implemented yet, skip for now
+            return Ok(());
+        }
         
-        // Critical fix: Only proceed if we actually got data
-        // This prevents race conditions when multiple clients wake up simultaneously
-        if let Some(popped_value) = value {
-            // Try to update connection state - use try_with_connection to avoid deadlock
-            if let Some(result) = self.connections.with_connection(wakeup.conn_id, |conn| -> Result<()> {
-                // Only wake if still in blocked state
-                if let ConnectionState::Blocked(_) = conn.state {
-                    // Send the response with the atomically popped value
+        // The element is popped only once we know the connection still exists and is still
+        // blocked (connection lock held): an element must never be popped and then dropped.
+        let served = self.connections.with_connection(wakeup.conn_id, |conn| -> Result<bool> {
+            let blocked = match &conn.state {
+                ConnectionState::Blocked(blocked) => blocked.clone(),
+                _ => return Ok(false), // no longer blocked: leave the element in the list
+            };
+            
+            let value = match wakeup.op_type {
+                super::connection::BlockingOp::BLPop => self.storage.lpop(wakeup.db, &wakeup.key)?,
+                super::connection::BlockingOp::BRPop => self.storage.rpop(wakeup.db, &wakeup.key)?,
+                super::connection::BlockingOp::XReadBlock(_) => None,
+            };
+            
+            match value {
+                Some(popped_value) => {
                     let response = RespFrame::Array(Some(vec![
                         RespFrame::from_bytes(wakeup.key.clone()),
-                        RespFrame::from_bytes(popped_value),
+                        RespFrame::from_bytes(popped_value.clone()),
                     ]));
                     
-                    // Try to send response - if connection is closed, ignore error
-                    if let Err(_) = conn.send_frame(&response) {
-                        // Connection closed - this is okay, just return
-                        return Ok(());
+                    if conn.send_frame(&response).is_err() {
+                        // Could not hand the element over: put it back where it came from
+                        match wakeup.op_type {
+                            super::connection::BlockingOp::BRPop => {
+                                self.storage.rpush(wakeup.db, wakeup.key.clone(), vec![popped_value])?;
+                            }
+                            _ => {
+                                self.storage.lpush(wakeup.db, wakeup.key.clone(), vec![popped_value])?;
+                            }
+                        }
+                        return Ok(false);
                     }
                     
                     // Return connection to authenticated state
                     conn.state = ConnectionState::Authenticated;
+                    Ok(true)
                 }
-                Ok(())
-            }) {
-                // Execute the result and ignore any connection errors
-                let _ = result;
+                None => {
+                    // Another client took the element first. The wake-up removed this client's
+                    // registrations, so register it again: it keeps waiting until its deadline
+                    // instead of being stranded in the blocked state.
+                    let keys = blocked.keys.iter().map(|(_, key)| key.clone()).collect();
+                    self.blocking_manager.register_blocked(
+                        wakeup.db, wakeup.conn_id, keys, blocked.op_type.clone(), blocked.deadline)?;
+                    Ok(true)
+                }
+            }
+        });
+        
+        match served {
+            Some(Ok(true)) => {}
+            _ => {
+                // The connection is gone or no longer blocked: pass the wake-up on to the
+                // next client waiting on this key, if any.
+                self.blocking_manager.notify_key_ready(wakeup.db, &wakeup.key);
             }
         }
-        // If value is None (list was empty), the client should be timed out normally
-        // This is correct behavior - multiple wake-ups for same item result in only one getting data
         
         Ok(())
     }
@@ -599,9 +622,21 @@ impl Server {
             if let Some(conn) = self.connections.remove(id) {
                 println!("Client {} disconnected from {}", id, conn.addr);
                 
+                // Clean up any blocking operations
+                for db in 0..self.storage.database_count() {
+                    if let Err(e) = self.blocking_manager.unregister_client(db, id) {
+                        eprintln!("Error cleaning up blocking operations for connection {}: {}", id, e);
+                    }
+                }
+                
                 // Clean up any pub/sub subscriptions
                 if let Err(e) = self.pubsub.unsubscribe_all(id) {
                     eprintln!("Error cleaning up subscriptions for connection {}: {}", id, e);
+                }
+                
+                // Clean up monitor subscription
+                if let Err(e) = self.monitor_subscribers.unsubscribe(id) {
+                    eprintln!("Error cleaning up monitor subscription for connection {}: {}", id, e);
                 }
             }
         }
@@ -1307,8 +1342,11 @@ impl Server {
                 if let Ok(RespFrame::Integer(count)) = &result {
                     if *count > 0 && parts.len() >= 3 {
                         if let RespFrame::BulkString(Some(key_bytes)) = &parts[1] {
-                            if self.blocking_manager.has_blocked_clients(db, key_bytes) {
-                                // Simplified notification - no pre-computed value
+                            // One wake-up per pushed element, as long as clients are waiting
+                            for _ in 0..(parts.len() - 2) {
+                                if !self.blocking_manager.has_blocked_clients(db, key_bytes) {
+                                    break;
+                                }
                                 self.blocking_manager.notify_key_ready(db, key_bytes);
                             }
                         }
@@ -1324,8 +1362,11 @@ impl Server {
                 if let Ok(RespFrame::Integer(count)) = &result {
                     if *count > 0 && parts.len() >= 3 {
                         if let RespFrame::BulkString(Some(key_bytes)) = &parts[1] {
-                            if self.blocking_manager.has_blocked_clients(db, key_bytes) {
-                                // Simplified notification - no pre-computed value
+                            // One wake-up per pushed element, as long as clients are waiting
+                            for _ in 0..(parts.len() - 2) {
+                                if !self.blocking_manager.has_blocked_clients(db, key_bytes) {
+                                    break;
+                                }
                                 self.blocking_manager.notify_key_ready(db, key_bytes);
                             }
                         }
